@@ -7,7 +7,7 @@
    interleaving of the visible events of every schedule. *)
 From Oras Require Import Base.Prelude Generated.GC01 Model.CopySpec Model.CopyTop Model.CopyOpt
   Model.CopyCancel Model.CopyLinks Proofs.CopySpec Proofs.CopyAcct Proofs.CopyOpt Proofs.CopyCancel
-  Proofs.CopyLinks Proofs.CopyCode.
+  Proofs.CopyLinks Proofs.CopyCode Model.CopyBytes Proofs.CopyBytes Model.CopyExt Proofs.CopyExt.
 Local Open Scope nat_scope.
 
 (* Success => every node reachable from the root (foreign layers cut) is in the
@@ -393,3 +393,146 @@ Theorem C01_platform_on_image :
     select_target r (PVImage ok p) want = Some x <-> x = r /\ ok = true /\ plat_match p want = true.
 Proof. exact select_target_image. Qed.
 Print Assumptions C01_platform_on_image.
+
+(* ---- "with bytes identical to the source" (Model/CopyBytes.v) ----
+   Along the accepted trace every storing event (successful Push / PushReference, Mount that mounted
+   or uploaded) receives ARBITRARY bytes ([served]: the copy is not trusted to hand over the right
+   reader) and the destination keeps them only if they pass its verification against the node's
+   descriptor (digest + size; what the stores' Push really checks is property C05).  Then, for a
+   digest without collisions on the universe and a destination key that is a function of the content
+   or of the node: after a successful Copy / CopyGraph every node reachable from the root is held by
+   the destination with exactly the source's bytes.  Premises named in the statement:
+   [collision_free] (SHA-2 is abstract), [key_respects_bytes], and that the pre-existing content was
+   verified content too. *)
+Theorem C01_bytes_identical :
+  forall (digest : str -> nat) (src_bytes : node -> str)
+         (g : graph) (c : cfg) (d0 : list node) (tr : list event) (st : state)
+         (served : list str) (bs0 bs : bstore),
+    closed_nodes g d0 -> mt_consistent g ->
+    collision_free digest src_bytes -> key_respects_bytes src_bytes g ->
+    (forall n b, In (n, b) bs0 -> verify digest src_bytes n b = true) -> map fst bs0 = d0 ->
+    accepts g c d0 tr = Some st -> returned st = Some true ->
+    brun digest src_bytes tr served bs0 = Some bs ->
+    forall n, reach g (c_root c) n ->
+      exists m b, In (m, b) bs /\ g_dkey g m = g_dkey g n /\ b = src_bytes n.
+Proof. exact bytes_identical. Qed.
+Print Assumptions C01_bytes_identical.
+
+(* bytes that do not match the descriptor never become visible: the storing event cannot happen *)
+Theorem C01_wrong_bytes_rejected :
+  forall (digest : str -> nat) (src_bytes : node -> str) n ref r served b bs,
+    verify digest src_bytes n b = false ->
+    brun digest src_bytes (PuE n ref POk :: r) (b :: served) bs = None.
+Proof. exact wrong_bytes_rejected. Qed.
+Print Assumptions C01_wrong_bytes_rejected.
+
+(* the destination's node set and its byte-level content move together *)
+Theorem C01_dst_is_what_was_stored :
+  forall (g : graph) (c : cfg) (tr : list event) (st st' : state),
+    run g c st tr = Some st' -> dst st' = stored_nodes tr (dst st).
+Proof. exact run_dst_stores. Qed.
+Print Assumptions C01_dst_is_what_was_stored.
+
+Example C01_example_bytes :
+  let digest := fun s : str => match s with [x] => N.to_nat x | _ => 0 end in
+  let src := fun n : node => [N.of_nat (S n)] in
+  collision_free digest src /\
+  exists bs, brun digest src [PuE 0 false POk; PuE 1 false POk] [[1%N]; [2%N]] [] = Some bs /\
+             bs = [(1, [2%N]); (0, [1%N])].
+Proof. exact bytes_example. Qed.
+
+(* ---- ExtendedCopy end to end (Model/CopyExt.v): the walk from every root above the node, then dst.Tag(node, dstRef) ---- *)
+
+(* success => the reference is on the node and everything reachable from every root is in the destination *)
+Theorem C01_extended_copy :
+  forall (g : graph) (c : cfg) (tgt : node) (d0 : list node) (tr : list event) (st : state),
+    closed_nodes g d0 -> mt_consistent g ->
+    xaccepts g c tgt d0 tr = Some st -> returned st = Some true ->
+    tag st = Some tgt /\
+    forall r n, In r (c_root c :: c_xroots c) -> reach g r n -> has g (dst st) n = true.
+Proof. exact extended_copy_lemma. Qed.
+Print Assumptions C01_extended_copy.
+
+(* in particular the node's own graph, whenever some root reaches the node *)
+Theorem C01_extended_copy_node_graph :
+  forall (g : graph) (c : cfg) (tgt : node) (d0 : list node) (tr : list event) (st : state) (r : node),
+    closed_nodes g d0 -> mt_consistent g ->
+    xaccepts g c tgt d0 tr = Some st -> returned st = Some true ->
+    In r (c_root c :: c_xroots c) -> reach g r tgt ->
+    forall n, reach g tgt n -> has g (dst st) n = true.
+Proof. exact extended_copy_node_graph. Qed.
+Print Assumptions C01_extended_copy_node_graph.
+
+(* the reference is written once, last, after the walk of all roots returned success *)
+Theorem C01_extended_copy_tag_last :
+  forall (g : graph) (c : cfg) (tgt : node) (d0 : list node) (tr : list event) (st : state),
+    xaccepts g c tgt d0 tr = Some st -> returned st = Some true ->
+    exists walk st1, accepts g c d0 (walk ++ [Ret true]) = Some st1 /\ returned st1 = Some true /\
+                     dst st = dst st1 /\ tr = walk ++ [TagB tgt; TagE tgt; Ret true].
+Proof. exact extended_copy_tag_last. Qed.
+Print Assumptions C01_extended_copy_tag_last.
+
+(* a run that does not return success leaves the reference untouched *)
+Theorem C01_extended_copy_failure_untagged :
+  forall (g : graph) (c : cfg) (tgt : node) (d0 : list node) (tr : list event) (st : state),
+    c_mode c = MGraph ->
+    xaccepts g c tgt d0 tr = Some st -> returned st <> Some true -> tag st = None.
+Proof. exact extended_copy_failure_untagged. Qed.
+Print Assumptions C01_extended_copy_failure_untagged.
+
+(* byte identity from every root (ExtendedCopyGraph) *)
+Theorem C01_bytes_identical_all_roots :
+  forall (digest : str -> nat) (src_bytes : node -> str)
+         (g : graph) (c : cfg) (d0 : list node) (tr : list event) (st : state) served bs0 bs,
+    closed_nodes g d0 -> mt_consistent g ->
+    collision_free digest src_bytes -> key_respects_bytes src_bytes g ->
+    (forall n b, In (n, b) bs0 -> verify digest src_bytes n b = true) -> map fst bs0 = d0 ->
+    accepts g c d0 tr = Some st -> returned st = Some true ->
+    brun digest src_bytes tr served bs0 = Some bs ->
+    forall r n, In r (c_root c :: c_xroots c) -> reach g r n ->
+      exists m b, In (m, b) bs /\ g_dkey g m = g_dkey g n /\ b = src_bytes n.
+Proof. exact bytes_identical_all_roots. Qed.
+Print Assumptions C01_bytes_identical_all_roots.
+
+(* ExtendedCopy, complete statement: reference on the node + every node under every root present with the source's bytes *)
+Theorem C01_extended_copy_bytes :
+  forall (digest : str -> nat) (src_bytes : node -> str)
+         (g : graph) (c : cfg) (tgt : node) (d0 : list node) (tr : list event) (st : state) served bs0 bs,
+    closed_nodes g d0 -> mt_consistent g ->
+    collision_free digest src_bytes -> key_respects_bytes src_bytes g ->
+    (forall n b, In (n, b) bs0 -> verify digest src_bytes n b = true) -> map fst bs0 = d0 ->
+    xaccepts g c tgt d0 tr = Some st -> returned st = Some true ->
+    brun digest src_bytes tr served bs0 = Some bs ->
+    tag st = Some tgt /\
+    forall r n, In r (c_root c :: c_xroots c) -> reach g r n ->
+      exists m b, In (m, b) bs /\ g_dkey g m = g_dkey g n /\ b = src_bytes n.
+Proof. exact extended_copy_bytes. Qed.
+Print Assumptions C01_extended_copy_bytes.
+
+(* ExtendedCopy under every option set (nil callbacks) and with cancellation: the recorded trace is judged by
+   xcaccepts_opt; it is sound for the plain acceptor, so success => reference on the node + all roots' graphs *)
+Theorem C01_extended_copy_any_options :
+  forall (cs : cbset) (g : graph) (c : cfg) (tgt : node) (d0 : list node) (tr : list cevent) (s : cstate) (full : list event),
+    closed_nodes g d0 -> mt_consistent g -> c_mode c = MGraph ->
+    xcaccepts_opt cs g c tgt d0 tr = Some (s, full) -> returned (cs_st s) = Some true ->
+    tag (cs_st s) = Some tgt /\
+    forall r n, In r (c_root c :: c_xroots c) -> reach g r n -> has g (dst (cs_st s)) n = true.
+Proof. exact extended_copy_any_options. Qed.
+Print Assumptions C01_extended_copy_any_options.
+
+Theorem C01_extended_copy_elaboration :
+  forall (cs : cbset) (g : graph) (c : cfg) (tgt : node) (d0 : list node) (tr : list cevent) (s : cstate) (full : list event),
+    c_mode c = MGraph ->
+    xcaccepts_opt cs g c tgt d0 tr = Some (s, full) -> returned (cs_st s) = Some true ->
+    exists w, full = w ++ [Ret true] /\
+              xaccepts g c tgt d0 (w ++ [TagB tgt; TagE tgt; Ret true]) = Some (cs_st s).
+Proof. exact xcaccepts_sound. Qed.
+Print Assumptions C01_extended_copy_elaboration.
+
+(* no success without the tag: a recorded ExtendedCopy trace that returns success ends TagB node, TagE node, Ret true *)
+Theorem C01_extended_copy_success_is_tagged :
+  forall (cs : cbset) (g : graph) (c : cfg) (tgt : node) (d0 : list node) (tr : list cevent) (s : cstate) (full : list event),
+    xcaccepts_opt cs g c tgt d0 tr = Some (s, full) -> returned (cs_st s) = Some true ->
+    exists w, tr = w ++ [Ev (TagB tgt); Ev (TagE tgt); Ev (Ret true)].
+Proof. exact extended_copy_success_is_tagged. Qed.
+Print Assumptions C01_extended_copy_success_is_tagged.
